@@ -12,6 +12,7 @@ import (
 	"fmt"
 	"io"
 	"os"
+	"runtime"
 	"runtime/debug"
 	"sort"
 	"sync"
@@ -108,9 +109,37 @@ func runAct(e *Env, st Step, args J) (obs J) {
 	case o := <-done:
 		return o
 	case <-time.After(watchdog):
-		atomic.AddInt32(&hangs, 1)
-		return J{"panic": false, "hang": true}
 	}
+	// not back after the watchdog period.  On an oversubscribed machine a call can simply be starved: before calling it a
+	// hang, wait on -- as long as the load average says that more is runnable than there are processors (a call that loops
+	// for ever is still not back after that)
+	for waited := 0; waited < 12 && overloaded(); waited++ {
+		select {
+		case o := <-done:
+			return o
+		case <-time.After(watchdog):
+		}
+	}
+	select {
+	case o := <-done:
+		return o
+	default:
+	}
+	atomic.AddInt32(&hangs, 1)
+	return J{"panic": false, "hang": true}
+}
+
+// overloaded: the 1-minute load average exceeds the number of processors
+func overloaded() bool {
+	b, err := os.ReadFile("/proc/loadavg")
+	if err != nil {
+		return false
+	}
+	var l1 float64
+	if _, err := fmt.Sscanf(string(b), "%f", &l1); err != nil {
+		return false
+	}
+	return l1 > float64(runtime.NumCPU())
 }
 
 type VecResult struct {
@@ -229,6 +258,10 @@ func runVector(v *Vector, seed int64, wantTrace bool) VecResult {
 		if twinActs[st.Act] && !st.Soft && e.twins[st.Act] != nil {
 			obs3 := runAct(e, st, e.twins[st.Act])
 			e.scribbleTwin(st.Act)
+			if h3, _ := obs3["hang"].(bool); h3 {
+				res.Failures = append(res.Failures, Failure{Vid: v.ID, Step: i + 1, Act: st.Act, Prop: st.Prop, Key: "hang", Got: "no return within watchdog (repetition on the twin inputs)", Want: "return", Sig: sig})
+				keys = nil
+			}
 			for _, k := range keys {
 				if k == "hang" || k == "repeat" {
 					continue
@@ -242,6 +275,10 @@ func runVector(v *Vector, seed int64, wantTrace bool) VecResult {
 		if hasEmptyInput(st.Act, args) && !st.Soft {
 			obs2 := runAct(e, st, e.present(st.Act, args, true))
 			e.scribble(st.Act)
+			if h2, _ := obs2["hang"].(bool); h2 {
+				res.Failures = append(res.Failures, Failure{Vid: v.ID, Step: i + 1, Act: st.Act, Prop: st.Prop, Key: "hang", Got: "no return within watchdog (repetition with nil for empty)", Want: "return", Sig: sig})
+				keys = nil
+			}
 			for _, k := range keys {
 				if k == "hang" || k == "ivrepeat" || k == "repeat" { // freshness across calls is not a matter of this repetition
 					continue
